@@ -16,4 +16,16 @@ cmd = ['lake', 'build'] + t['lean_targets']
 print('+', ' '.join(cmd), flush=True)
 subprocess.check_call(cmd, cwd='lean')
 PY
+# C19: the harness worker `exec_cfg` in every build configuration ({64,32}-bit words x {std,no_std} x {dev,release}, cached under
+# .cache/cfg-<conf>; plus the dependencies of the unsupported 16-bit configuration), so that `./check C19` only re-links
+python3 - <<'PY'
+import sys
+sys.path.insert(0, '.')
+from vlib import cfgbuild
+mpath, info = cfgbuild.build(list(cfgbuild.ALL) + [cfgbuild.UNSUPPORTED], jobs=4)
+for conf, d in info['configurations'].items():
+    print('cfg build', conf, 'ok' if d['built'] else 'FAILED ' + d['detail'][:120], '%.0fs' % d['seconds'], flush=True)
+bad = [c for c, d in info['configurations'].items() if not d['built'] and c != cfgbuild.UNSUPPORTED]
+sys.exit(1 if bad else 0)
+PY
 echo setup done
